@@ -247,8 +247,7 @@ var reCall = regexp.MustCompile(`^call\[([^\]]+)\]\s*(.*)$`)
 func parseContractText(lines []string, file string, pkgPath string, voc *Vocab) ([]*Contract, error) {
 	var out []*Contract
 	var cur *Contract
-	stack := []*Contract{}
-	_ = stack
+	var closureStack []*Contract
 	var top *Contract
 	for i, raw := range lines {
 		ln := strings.TrimSpace(raw)
@@ -274,6 +273,7 @@ func parseContractText(lines []string, file string, pkgPath string, voc *Vocab) 
 			}
 			cur = &Contract{Key: key, File: file, Loops: map[int]*LoopSpec{}, Calls: map[string]*CallSpec{}, Allocs: map[int]*CExpr{}, MayPanic: map[int]bool{}, Closures: map[int]*Contract{}}
 			top = cur
+			closureStack = nil
 			out = append(out, cur)
 			continue
 		case word == "ghostfield":
@@ -479,8 +479,13 @@ func parseContractText(lines []string, file string, pkgPath string, voc *Vocab) 
 			}
 			cur.Ghosts = append(cur.Ghosts, GhostUpdate{After: m[1], LHS: l, RHS: r})
 		case "end":
-			// end closure
-			cur = top
+			// end closure: back to the enclosing block (closure blocks nest like the literals they describe)
+			if n := len(closureStack); n > 0 {
+				cur = closureStack[n-1]
+				closureStack = closureStack[:n-1]
+			} else {
+				cur = top
+			}
 		default:
 			if m := reIdx.FindStringSubmatch(ln); m != nil {
 				k, _ := strconv.Atoi(m[2])
@@ -528,8 +533,9 @@ func parseContractText(lines []string, file string, pkgPath string, voc *Vocab) 
 					}
 				case "closure":
 					// closure[k] begins a nested contract block for the k-th function literal
-					cc := &Contract{Key: fmt.Sprintf("%s$%d", top.Key, k+1), File: file, Loops: map[int]*LoopSpec{}, Calls: map[string]*CallSpec{}, Allocs: map[int]*CExpr{}, MayPanic: map[int]bool{}, Closures: map[int]*Contract{}}
-					top.Closures[k] = cc
+					cc := &Contract{Key: fmt.Sprintf("%s$%d", cur.Key, k+1), File: file, Loops: map[int]*LoopSpec{}, Calls: map[string]*CallSpec{}, Allocs: map[int]*CExpr{}, MayPanic: map[int]bool{}, Closures: map[int]*Contract{}}
+					cur.Closures[k] = cc
+					closureStack = append(closureStack, cur)
 					cur = cc
 				default:
 					return fail(fmt.Errorf("%s:%d: unsupported clause %q", file, lineNo, ln))
